@@ -383,6 +383,15 @@ func (e *sessEngine) line(st string) string {
 
 // oracle evaluates C16 directly on the real server at quiescence.
 func (e *sessEngine) oracle(o *Out) {
+	// a case (e.g. one produced by the shrinker) in which a token's expiry passes without its
+	// `expire` op: the harness' bookkeeping of what is open is then not defined; the model
+	// comparison still applies, the oracle abstains
+	for _, c := range e.cls {
+		if c.alive && c.hasExp && !e.disable && time.Now().After(c.exp.Add(-100*time.Millisecond)) {
+			o.Count("oracle:C16:abstained-expiry-passed-without-expire-op")
+			return
+		}
+	}
 	want := map[string]int{}
 	open := 0
 	for _, c := range e.cls {
